@@ -9,7 +9,7 @@ MAX_ROW = 1048576
 
 def resolve_sheet(sheet_str):
     sheet_str = sheet_str.strip()
-    sheet_match = re.match(SHEET_TITLE.strip(), sheet_str + '!')
+    sheet_match = re.fullmatch(SHEET_TITLE.strip(), sheet_str + '!')
     if sheet_match is None:
         # Internally, sheets are not properly quoted, so consider the entire
         # string.
@@ -24,7 +24,7 @@ def resolve_sheet(sheet_str):
 
 def resolve_address(addr):
     # Addresses without sheet name are not supported.
-    sheet_str, addr_str = addr.split('!')
+    sheet_str, addr_str = addr.rsplit('!', 1)
     sheet = resolve_sheet(sheet_str)
     coord_match = COORD_RE.split(addr_str)
     col, row = coord_match[1:3]
@@ -37,7 +37,7 @@ def resolve_ranges(ranges, default_sheet='Sheet1'):
     for rng in ranges.split(','):
         # Handle sheets in range.
         if '!' in rng:
-            sheet_str, rng = rng.split('!')
+            sheet_str, rng = rng.rsplit('!', 1)
             rng_sheet = resolve_sheet(sheet_str)
             if sheet is not None and sheet != rng_sheet:
                 raise ValueError(
